@@ -57,8 +57,11 @@ def build_file(ctx, nlabels, with_alias=True, top_bit=False, one_digit=False):
             ctx.add(bits[i] != bits[j])
     other = ['maskbits OTHERGROUP 0 ZERO "zero"', 'maskbits OTHERGROUP 1 ONE "one"']
     alias = ['maskalias %s ALIASG' % GROUP] if with_alias else []
+    # row order of the file: the rows of a group need not be contiguous (choice made by the solver)
+    split = int(ctx.int('rowsplit', 0, 1)) if nlabels >= 2 else 0
+    rows = text_lines + other if not split else text_lines[:1] + other[:1] + text_lines[1:] + other[1:]
     text = None
-    for ln in lines + text_lines + other + alias:
+    for ln in lines + rows + alias:
         piece = S(ln, '\n')
         text = piece if text is None else text + piece
     return text, list(zip(LABELS[:nlabels], bits))
@@ -230,8 +233,10 @@ def replay(rec):
                 d1 = int(inp.get('bit%d_d1' % i, 48)) - 48
                 b = d0 * 10 + d1 if inp.get('bit%d_two' % i, False) else d0
             bits.append(b)
-            lines.append('maskbits %s %d %s "bit %d"' % (GROUP, b, LABELS[i], i))
-        lines += ['maskbits OTHERGROUP 0 ZERO "zero"', 'maskbits OTHERGROUP 1 ONE "one"', 'maskalias %s ALIASG' % GROUP]
+        grows = ['maskbits %s %d %s "bit %d"' % (GROUP, bits[i], LABELS[i], i) for i in range(nlabels)]
+        other = ['maskbits OTHERGROUP 0 ZERO "zero"', 'maskbits OTHERGROUP 1 ONE "one"']
+        lines += (grows + other) if not int(inp.get('rowsplit', 0)) else (grows[:1] + other[:1] + grows[1:] + other[1:])
+        lines += ['maskalias %s ALIASG' % GROUP]
         fn = os.path.join(tmp, 'm.par')
         with open(fn, 'w') as f:
             f.write('\n'.join(lines) + '\n')
